@@ -44,6 +44,22 @@ package fptower
 //@ modifies arg0
 //@ end
 
+//@ func mulAdxE2
+//@ tags default
+//@ assumed assembly (e2_amd64.s): the schoolbook product in Fp[u]/(u^2 - 13), as proved for the portable E2.Mul; run against this contract under C09 (bounded)
+//@ layer ring fp.Element
+//@ ensures[value] vec(arg0) == qmul(13, old(vec(arg1)), old(vec(arg2)))
+//@ modifies arg0
+//@ end
+
+//@ func mulNonResE2
+//@ tags default
+//@ assumed assembly (e2_amd64.s): multiplication by the sextic non-residue (0, 1), as proved for the portable E2.MulByNonResidue; run against this contract under C09 (bounded)
+//@ layer ring fp.Element
+//@ ensures[value] vec(arg0) == qmul(13, svec(2, 0, 0, 1, 1), old(vec(arg1)))
+//@ modifies arg0
+//@ end
+
 //@ func mulGenericE2
 //@ layer ring fp.Element
 //@ ensures[value] vec(z) == qmul(13, old(vec(x)), old(vec(y)))
